@@ -953,11 +953,16 @@ def qname(ns, local):
     return local if ns is None else PFX[ns] + ':' + local
 
 
-def ser(el, out=None):
+def ser(el, out=None, spans=None, insert=None):
+    """serialise; spans (optional dict) receives id(element) -> (start offset, end offset); insert: text placed after the
+    name of the outermost start tag (namespace declarations)"""
     top = out is None
     if top:
-        out = []
+        out = _Out()
+    start = out.n
     out.append('<' + qname(el.ns, el.local))
+    if insert:
+        out.append(insert)
     if el.xtype is not None:
         out.append(' xsi:type="%s"' % qname(*el.xtype))
     if el.nil is not None:
@@ -970,7 +975,7 @@ def ser(el, out=None):
         out.append('>')
         for k in el.kids:
             if isinstance(k, El):
-                ser(k, out)
+                ser(k, out, spans)
             elif isinstance(k, str):
                 out.append(xt(k))
             elif k[0] == 'c':
@@ -980,8 +985,21 @@ def ser(el, out=None):
             elif k[0] == 'cr':
                 out.append('&#%d;' % k[1])
         out.append('</%s>' % qname(el.ns, el.local))
+    if spans is not None:
+        spans[id(el)] = (start, out.n)
     if top:
-        return ''.join(out)
+        return ''.join(out.parts)
+
+
+class _Out:
+    __slots__ = ('parts', 'n')
+
+    def __init__(self):
+        self.parts, self.n = [], 0
+
+    def append(self, x):
+        self.parts.append(x)
+        self.n += len(x)
 
 
 def ns_decls(schema):
@@ -1019,7 +1037,7 @@ def batch_document(schema, wname, instances):
 # =====================================================================================================================
 class Node:
     """expected post-validation view of one element"""
-    __slots__ = ('ns', 'local', 'type', 'attrs', 'text', 'kids', 'assessed', 'simple_text', 'adefault')
+    __slots__ = ('ns', 'local', 'type', 'attrs', 'text', 'kids', 'assessed', 'simple_text', 'adefault', 'feats', 'rules', 'el', 'ctype')
 
     def __init__(self, ns, local):
         self.ns, self.local = ns, local
@@ -1029,6 +1047,10 @@ class Node:
         self.text = None          # character content as it must be reported (only for simple content, else None)
         self.kids = []
         self.assessed = True
+        self.feats = set()        # feature tags of this element alone
+        self.rules = []           # rules violated at this element
+        self.el = None
+        self.ctype = None
 
 
 class Result:
@@ -1040,6 +1062,31 @@ class Result:
     @property
     def valid(self):
         return not self.errors
+
+
+class _Feats:
+    """adds a feature tag to the instance-wide set and to the element's own set"""
+    __slots__ = ('g', 'n')
+
+    def __init__(self, g, node):
+        self.g, self.n = g, node
+
+    def add(self, x):
+        self.g.add(x)
+        self.n.feats.add(x)
+
+
+class _Errs:
+    """appends a violated rule to the instance-wide list and to the element's own list"""
+    __slots__ = ('g', 'n')
+
+    def __init__(self, g, node):
+        self.g = g.g if isinstance(g, _Errs) else g
+        self.n = node
+
+    def append(self, x):
+        self.g.append(x)
+        self.n.rules.append(x)
 
 
 class Validator:
@@ -1065,8 +1112,10 @@ class Validator:
     # ---- element ----------------------------------------------------------------------------------------------------
     def v_elem(self, el, decl, errs, mode):
         """mode: 'strict' | 'lax' (declaration may be None) | 'skip'"""
-        F = self.feats
         node = Node(el.ns, el.local)
+        node.el = el
+        F = _Feats(self.feats, node)
+        errs = _Errs(errs, node)
         if mode == 'skip':
             node.assessed = False
             if el.xtype is not None:
@@ -1085,9 +1134,9 @@ class Validator:
                 # XSD 1.0 3.3.4: an element without declaration "may be laxly assessed" against the ur-type: whether declared
                 # descendants / attributes get validated is left to the processor; decided only when it cannot matter
                 sub = []
-                saved = set(F)
-                node = self._lax_subtree(el, sub)
-                F.intersection_update(saved)
+                saved = set(self.feats)
+                self._lax_subtree(el, sub, node)
+                self.feats.intersection_update(saved)
                 F.add('lax:undeclared-element')
                 if sub:
                     errs.append('unsupported:lax-assessment-of-undeclared-subtree')
@@ -1099,7 +1148,7 @@ class Validator:
             v = ws_apply('collapse', el.nil)
             F.add('nil')
             if v in ('1', '0'):
-                F.add('nil-lexical-' + v)
+                F.add('nil-lexical-numeric')
             if v != el.nil:
                 F.add('nil-lexical-ws')
             if decl is None:
@@ -1126,6 +1175,7 @@ class Validator:
                 else:
                     t = xt_
         node.type = t if (decl is not None or el.xtype is not None) else None      # lax without declaration: not compared
+        node.ctype = t
         if not t.simple and t.abstract:
             errs.append('abstract-type')                                 # cvc-complex-type.1 / cvc-type.2
         # attributes
@@ -1172,8 +1222,8 @@ class Validator:
                 return node
             if ws_only:
                 F.add('ws-only-simple-content')
-                if vc is not None:
-                    F.add('ws-only-simple-content+element-' + vc[0])
+            if vc is not None:
+                F.add('element-' + vc[0])
             if has_comment:
                 F.add('comment-in-simple-content')
             if not has_chars and vc is not None:
@@ -1227,38 +1277,39 @@ class Validator:
                 raise ValueError('content model is not deterministic')
             lf, r = nxt[0]
             if lf[0] == 'e':
-                if lf[3] is not lf[2]:
-                    F.add('substitution-member')
-                plan.append((k, lf[3], 'strict'))
+                plan.append((k, lf[3], 'strict', ['substitution-member'] if lf[3] is not lf[2] else []))
             else:
                 pc = lf[2]
                 g = self.s.elems.get((k.ns, k.local))
-                if len(cands) > 1:
-                    F.add('overlapping-wildcards')
+                cf = ['overlapping-wildcards'] if len(cands) > 1 else []
                 if pc == 'skip':
-                    plan.append((k, None, 'skip'))
+                    plan.append((k, None, 'skip', cf))
                 elif g is not None:
-                    F.add('wildcard-%s:declared-element' % pc)
-                    plan.append((k, g, 'strict'))
+                    plan.append((k, g, 'strict', cf + ['wildcard-%s:declared-element' % pc]))
                 elif pc == 'strict' and k.xtype is None:
                     errs.append('strict-wildcard-no-declaration')        # cvc-assess-elt 1.1.1 / cvc-particle 3.x
-                    plan.append((k, None, 'skip'))
+                    plan.append((k, None, 'skip', cf))
                 else:
-                    if pc == 'strict':
-                        F.add('wildcard-strict:xsi-type-only')
-                    plan.append((k, None, 'lax'))
+                    plan.append((k, None, 'lax', cf + (['wildcard-strict:xsi-type-only'] if pc == 'strict' else [])))
         if t.content != 'empty':
             if failed is None and not nullable(r):
                 failed = 'content-model-mismatch'                        # cvc-complex-type.2.4
             if failed:
                 errs.append(failed)
                 F.add('cm:' + cm_class(t))
-        for (k, d, m) in plan:
-            node.kids.append(self.v_elem(k, d, errs if m != 'skip' else [], m))
+        for item in plan:
+            k, d, m = item[:3]
+            kn = self.v_elem(k, d, errs if m != 'skip' else [], m)
+            for x in (item[3] if len(item) > 3 else ()):
+                self.feats.add(x)
+                kn.feats.add(x)
+            node.kids.append(kn)
         return node
 
-    def _lax_subtree(self, el, errs):
-        node = Node(el.ns, el.local)
+    def _lax_subtree(self, el, errs, node=None):
+        if node is None:
+            node = Node(el.ns, el.local)
+            node.el = el
         node.assessed = False
         if el.nil is not None:
             errs.append('nil-without-declaration')
@@ -1276,7 +1327,7 @@ class Validator:
 
     # ---- attributes -------------------------------------------------------------------------------------------------
     def v_attrs(self, el, t, node, errs):
-        F = self.feats
+        F = _Feats(self.feats, node)
         seen = set()
         for (ns, local, v) in el.attrs:
             key = (ns, local)
